@@ -6,6 +6,7 @@ exit 2  `ANALYSIS-ERROR ...`  the analysis itself is broken (missing anchor, unp
         that must be decidable became undecided, self-test failure) -- never a VIOLATION line
 """
 import argparse
+import ast
 import importlib
 import json
 import os
@@ -67,6 +68,38 @@ def module_value_reads(repo):
                 if d:
                     dropped[q] = d
     repo._dropped_forwarding = dropped
+    exits = {}
+    for m, tree in repo.modules.items():
+        for q, body, i, fn in canon.outer_functions(tree, m):
+            if q in repo.changed and q in ref:
+                d = canon.new_exits(fn, ref[q]["src"])
+                if d:
+                    exits[q] = d
+    repo._new_exits = exits
+    # attribute names defined by the package itself (methods, properties, attributes stored on self, class-level names)
+    own = set()
+    for m, tree in repo.modules.items():
+        for n in ast.walk(tree):
+            if isinstance(n, ast.ClassDef):
+                for st in n.body:
+                    if isinstance(st, (ast.FunctionDef, ast.AsyncFunctionDef)):
+                        own.add(st.name)
+                    elif isinstance(st, ast.Assign):
+                        own.update(t.id for t in st.targets if isinstance(t, ast.Name))
+            if isinstance(n, ast.Attribute) and isinstance(n.ctx, ast.Store) and isinstance(n.value, ast.Name) and n.value.id == "self":
+                own.add(n.attr)
+    dropped_r = {}
+    for m, tree in repo.modules.items():
+        fresh = {}
+        for q, body, i, fn in canon.outer_functions(tree, m):
+            if q not in ref:
+                fresh[fn.name] = fn
+        for q, body, i, fn in canon.outer_functions(tree, m):
+            if q in repo.changed and q in ref:
+                d = [a for a in canon.dropped_reads(fn, ref[q]["src"], fresh) if a in own]
+                if d:
+                    dropped_r[q] = d
+    repo._dropped_reads = dropped_r
     return out
 
 
@@ -110,6 +143,25 @@ def new_guard_rule(ctx, prop):
         for callee, p_ in pairs:
             n += 1
             ctx.bad(rid3, q0, "what the caller asked for reaches the code that acts on it", f"parameter `{p_}` is no longer passed to {callee}(...)", key_detail=f"dropped {p_} -> {callee}"[:80])
+    rid4 = f"R{prop[1:]}w"
+    ctx.rule(rid4, "a decision of the confirmed function does not newly end the function / iteration on an arm that used to go on to further work (generic differential rule)", kind="N")
+    for q, items in sorted((getattr(ctx.repo, "_new_exits", None) or {}).items()):
+        q0 = q.split("#")[0]
+        if not any(c == q0 or c.startswith(q0 + ".") or c.startswith(q0 + "->") for c in anchored):
+            continue
+        for test, what in items:
+            n += 1
+            ctx.bad(rid4, q0, "every path still runs the statements the confirmed function ran on it", what, key_detail=f"new exit {what[:70]}")
+    rid5 = f"R{prop[1:]}v"
+    ctx.rule(rid5, "an attribute or method of the package that the confirmed function consulted is still consulted by it or by a new helper it calls (generic differential rule)",
+             kind="N")
+    for q, names in sorted((getattr(ctx.repo, "_dropped_reads", None) or {}).items()):
+        q0 = q.split("#")[0]
+        if not (any(c == q0 or c.startswith(q0 + ".") or c.startswith(q0 + "->") for c in anchored)):
+            continue
+        for nm in names:
+            n += 1
+            ctx.bad(rid5, q0, "the result still depends on everything the confirmed function made it depend on", f"`.{nm}` is no longer read", key_detail=f"dropped read {nm}")
     return n
 
 
